@@ -160,6 +160,28 @@ func (e *Engine) rec(op Op) *Op {
 
 // Fail records a violation of property prop. Only violations of the property
 // under check bear on the verdict of this run; others are counted.
+// Observe records a refuting observation that leaves the live-data model intact (a changed snapshot, a
+// structural defect): it is a violation when its property is the one under check, otherwise it is only
+// counted and the history goes on (what it leads to is then seen by the run's own oracles).
+func (e *Engine) Observe(prop, sig, what string) {
+	if prop == e.Prop || e.Retag != "" {
+		e.Fail(prop, sig, what)
+		return
+	}
+	e.Res.Count("other_property_observation:"+prop+":"+sig, 1)
+}
+
+// FailAny reports under the property being checked if it is one of props.
+func (e *Engine) FailAny(props []string, sig, what string) {
+	for _, p := range props {
+		if p == e.Prop {
+			e.Fail(p, sig, what)
+			return
+		}
+	}
+	e.Fail(props[0], sig, what)
+}
+
 func (e *Engine) Fail(prop, sig, what string) {
 	e.Dead = true
 	if e.Retag != "" && prop != e.Retag {
@@ -416,7 +438,7 @@ func (e *Engine) Revert(i int) {
 		if x.User {
 			cls = "user"
 		}
-		e.Fail("C06", "revert:inplace-mismatch:"+cls, fmt.Sprintf("after revert to %s the volume differs from the snapshot image in %d sectors; first: %s", x.Name, n, d))
+		e.FailAny([]string{"C06", "C01"}, "revert:inplace-mismatch:"+cls, fmt.Sprintf("after revert to %s the volume differs from the snapshot image in %d sectors; first: %s", x.Name, n, d))
 	}
 }
 
@@ -651,8 +673,11 @@ func (e *Engine) Check(deep bool) {
 		}
 		if d, n := Diff(img, 0, c.Img); d != "" {
 			if verdict {
-				e.Fail("C06", "snapshot:changed:"+e.lastMut(), fmt.Sprintf("user snapshot %s changed: %d sectors differ from the image at creation; first: %s", c.Name, n, d))
-				return
+				e.Observe("C06", "snapshot:changed:"+e.lastMut(), fmt.Sprintf("user snapshot %s changed: %d sectors differ from the image at creation; first: %s", c.Name, n, d))
+				if e.Dead {
+					return
+				}
+				continue
 			}
 			e.Res.Count("aux_auto_snapshot_changed_without_reclamation", 1)
 		}
@@ -804,6 +829,6 @@ func (e *Engine) checkStructure() {
 		}
 	}
 	if v.SnapIndx < newest {
-		e.Fail("C06", "structure:user-snapshot-outside-reclamation-boundary:"+e.lastMut(), fmt.Sprintf("newest retained user snapshot is file %d (%s) but the reclamation boundary (SnapIndx) is %d: its blocks may be punched", newest, v.Files[newest-1], v.SnapIndx))
+		e.Observe("C06", "structure:user-snapshot-outside-reclamation-boundary:"+e.lastMut(), fmt.Sprintf("newest retained user snapshot is file %d (%s) but the reclamation boundary (SnapIndx) is %d: its blocks may be punched", newest, v.Files[newest-1], v.SnapIndx))
 	}
 }
